@@ -15,6 +15,8 @@ import YaegiVerif.Generated.C07
    pack PATH ISVARIADIC ELLIPSIS DEFERRED NFIXED NARGS   → y=<ok|bad:…> g=ok
       PATH = bin (callBin) | fv (`call`, the function value is a host function): what the callee's parameters receive
       against Go's packing (nil variadic slice without variadic arguments, the slice itself with `...`, also when deferred)
+   fvcall ISVARIADIC ELLIPSIS DEFERRED NFIXED (kinds K0 K1 …)   → y=<ok|bad:…> g=ok   (`call` reaching a host function: packing + argument preparation)
+   hostrecv                        → y=<ok|bad:host-receiver-late> g=ok   (method value of a host value: receiver bound at evaluation)
    recvbind                        → y=<ok|bad:late-receiver> g=ok   (method wrapper: receiver read when the wrapper is made)
    ifacerecv                       → y=<ok|bad:receiver-bound-at-conversion|bad:receiver-follows-variable> g=ok
                                      (method wrappers of a conversion to a host interface: the held value, reached at each call)
@@ -170,6 +172,40 @@ def handlePack (viaBin isVariadic ellipsis deferred : Bool) (nFixed nArgs : Nat)
 def probeGet : FnDef := { numRet := 1, params := [.plain], nLocals := 0, body := fun _ fr => setAt fr 0 (fr.getD 1 .nil) }
 def probeHeap (n : Int) : Nat → Rep := fun a => if a = 0 then .int n else .nil
 
+/-- `call` reaching a host function (the callee expression has a script-written function type): packing, and the preparation of
+    every argument that needs one. KIND = decl (a function declared by the script, passed by name) | closure | scriptdyn (an
+    interpreted value written for a host-interface parameter) | other; the last argument is the spread slice when ELLIPSIS. -/
+def handleFvCall (isVariadic ellipsis deferred : Bool) (nFixed : Nat) (kinds : List String) : String :=
+  let nArgs := kinds.length
+  let packAns := handlePack false isVariadic ellipsis deferred nFixed nArgs
+  if packAns != "y=ok g=ok" then packAns else
+  let bad := (List.range nArgs).zip kinds |>.filterMap fun (i, k) =>
+    let isSpread := ellipsis && i + 1 == nArgs
+    if isSpread then none else
+    match k with
+    | "decl" =>
+      let h := callPrepareY G.callArgArms ellipsis false .func (.node 1)
+      if hostClean h && hostAssignable .concrete h then none else some s!"arg{i}-not-prepared"
+    | "closure" =>
+      let h := callPrepareY G.callArgArms ellipsis false .func (.mkfunc 1 true)
+      if hostClean h then none else some s!"arg{i}-not-prepared"
+    | "scriptdyn" =>
+      let h := callPrepareY G.callArgArms ellipsis false .hostIface (.dyn (probeDyn true true))
+      if hostAssignable .hostIface h then none else some s!"arg{i}-not-prepared"
+    | _ => none
+  match bad with
+  | [] => "y=ok g=ok"
+  | b :: _ => s!"y=bad:{b} g=ok"
+
+/-- `mv := c.M; c = other; mv()` on a value of a host type -/
+def handleHostRecv : String :=
+  let ok1 := hostMethodRecvY G false (probeHeap 1) (probeHeap 2) (.int 5) (.int 7) == recvSpec false (probeHeap 1) (probeHeap 2) (.var (.int 5) (.int 7))
+  let ok2 := hostMethodRecvY G false (probeHeap 1) (probeHeap 2) (.ptr (.int 0)) (.ptr (.int 0)) ==
+    recvSpec false (probeHeap 1) (probeHeap 2) (.var (.ptr (.int 0)) (.ptr (.int 0)))
+  let ok3 := hostMethodRecvY G true (probeHeap 1) (probeHeap 2) (.ptr (.int 0)) (.ptr (.int 1)) ==
+    recvSpec true (probeHeap 1) (probeHeap 2) (.var (.ptr (.int 0)) (.ptr (.int 1)))
+  if ok1 && ok2 && ok3 then "y=ok g=ok" else "y=bad:host-receiver-late g=ok"
+
 /-- `mv := x.M; x = other; mv()` and `p := &T{1}; mv := p.Get; *p = T{2}; mv()`: the model of the method wrapper run with the
     regenerated facts against Go's rule -/
 def handleRecvBind : String :=
@@ -200,8 +236,8 @@ def handleCall (hasRecv recvIsIface recvInSig isVariadic ellipsis deferred : Boo
   -- constants are converted to the type callBin picks for their position
   let conv := (List.range nArgs).zip args |>.map fun (i, a) =>
     if !a.isConst then none else
-      let (k, e) := argTypeIndexY G isVariadic numIn off i
-      let (k', e') := typeIndexSpec isVariadic numIn trueOff i
+      let (k, e) := argTypeIndexEY G isVariadic ellipsis numIn off i
+      let (k', e') := typeIndexSpecE isVariadic ellipsis numIn trueOff i
       let chosen := typeAt recvInSig params velem k e
       let right := typeAt recvInSig params velem k' e'
       if chosen == right then none else some s!"const-arg{i}-converted-to-{chosen}-not-{right}"
@@ -265,6 +301,11 @@ def handle (args : List Sexp) : String :=
     (match iv.bool?, el.bool?, df.bool?, nf.nat?, na.nat? with
      | some iv, some el, some df, some nf, some na => handlePack (path == "bin") iv el df nf na
      | _, _, _, _, _ => "bad-op")
+  | [.atom "fvcall", iv, el, df, nf, .list (.atom "kinds" :: ks)] =>
+    (match iv.bool?, el.bool?, df.bool?, nf.nat?, ks.mapM Sexp.atom? with
+     | some iv, some el, some df, some nf, some ks => handleFvCall iv el df nf ks
+     | _, _, _, _, _ => "bad-op")
+  | [.atom "hostrecv"] => handleHostRecv
   | [.atom "recvbind"] => handleRecvBind
   | [.atom "ifacerecv"] => handleIfaceRecv
   | [.atom "reenter", dp, cl] =>
